@@ -45,6 +45,9 @@ pub enum GitOp {
     Crlf { path: String },
     /// git pack-refs --all (branch heads move from loose files into packed-refs; no content changes)
     PackRefs,
+    /// checkpoint update without --id while HEAD names a branch that has no commit yet (a fresh repository, an
+    /// orphan branch): there is no commit to record, the update must fail and leave the store alone
+    CpUpdateUnborn { pending: bool },
 }
 
 #[derive(Clone, Debug, Default)]
